@@ -745,6 +745,7 @@ func (f *FnEnc) execLookup(v *ssa.Lookup) {
 		m := f.term(v.X)
 		k := f.term(v.Index)
 		val, has := f.mapLoad(xt, m, k, f.st)
+		val = e.shapeFactsT(val, xt.Elem()) // values stored in a map are well typed (ground instance)
 		has = tAnd(tNot(tEq(m, tInt(0))), has)
 		res := e.valIte(has, val, e.zeroVal(xt.Elem()))
 		if v.CommaOk {
